@@ -382,6 +382,115 @@ let () =
              | None -> "ok"
              | Some r -> "fail:" ^ r) in
         Mlutil.print_model model verdict
+    | "chist", [capf; poolf; itemsf] ->
+        let ctx0 = mk_ctx capf poolf in
+        let items = List.map (fun it ->
+          match String.index_opt it '@' with
+          | Some i -> (parse_op (String.sub it 0 i), int_of_string (String.sub it (i + 1) (String.length it - i - 1)))
+          | None -> (parse_op it, -1)) (split ',' itemsf) in
+        (* the model: a killed operation leaves crash_disk k; the state IS the disk, so the reopen is nothing *)
+        let ctxr = ref ctx0 and st = ref (init_st ctx0) in
+        let res = ref [] and cks = ref [] in
+        List.iter (fun (o, k) ->
+          (match o with OCap n -> ctxr := { !ctxr with cap = n; capn = nat_of_int n } | _ -> ());
+          let ctx = !ctxr in
+          (if k < 0 then begin let (r, st') = do_op ctx !st o in res := r :: !res; st := st' end
+           else begin
+             let (op, _) = mk_op ctx !st o in
+             let ss = steps enc dec ctx.hash ctx.capn op !st.d in
+             if k >= List.length ss then begin let (r, st') = do_op ctx !st o in res := r :: !res; st := st' end
+             else match crash_disk (nat_of_int k) None ss !st.d with
+               | Some d -> res := "crashed" :: !res; st := { !st with d; nid = !st.nid + 1 }
+               | None -> res := "MODEL-CRASH-STATE-UNDEFINED" :: !res
+           end);
+          cks := (state ctx !st ^ "/" ^ visit_s ctx !st) :: !cks) items;
+        let model = ["res=" ^ String.concat "," (List.rev !res); "cks=" ^ String.concat "^" (List.rev !cks)] in
+        (* the oracle: crash_reopen_history on what the implementation showed — an ordered map on which every
+           killed operation is applied completely, not at all, or (capped delivery) has dropped 1..n oldest *)
+        let n = List.length ctx0.pool in
+        let ab = Array.make n [] and nadd = Array.make n 0 in
+        let sctx = ref ctx0 in
+        let render () =
+          let ls = Array.to_list (Array.map (fun l -> if l = [] then "-" else String.concat ";" l) ab) in
+          let ne = List.sort compare (List.filter (fun x -> x <> "-") ls) in
+          String.concat "|" ls ^ "/" ^ (if ne = [] then "none" else String.concat "|" ne) in
+        let set_seen m = match split '.' m with
+          | [h; a; b; c; _; e] -> String.concat "." [h; a; b; c; "1"; e] | _ -> m in
+        (* apply a completed operation to the ordered map; returns its result *)
+        let apply o =
+          match o with
+          | OCap c -> sctx := { !sctx with cap = c; capn = nat_of_int c }; "-"
+          | OReopen | ORestart -> "-"
+          | OAdd (mb, tok, date, seed, rep) ->
+              let b = body seed rep in
+              let m = String.concat "." [ "k" ^ string_of_int nadd.(mb); hexs (mbname ctx0 mb); hexs (info tok date);
+                                          string_of_int (String.length b); "0"; digest b ] in
+              ab.(mb) <- spec_add !sctx ab.(mb) m; nadd.(mb) <- nadd.(mb) + 1; "k" ^ string_of_int (nadd.(mb) - 1)
+          | OSeen (mb, h) ->
+              let hs = "k" ^ string_of_int h in
+              if List.exists (fun m -> handle_of_msg m = hs) ab.(mb) then begin
+                ab.(mb) <- List.map (fun m -> if handle_of_msg m = hs then set_seen m else m) ab.(mb); "ok" end
+              else "notexist"
+          | ORemove (mb, h) ->
+              let hs = "k" ^ string_of_int h in
+              if List.exists (fun m -> handle_of_msg m = hs) ab.(mb) then begin
+                ab.(mb) <- List.filter (fun m -> handle_of_msg m <> hs) ab.(mb); "ok" end
+              else "notexist"
+          | OPurge mb -> ab.(mb) <- []; "ok"
+          | OVisit -> let v = render () in let i = String.index v '/' in "V=" ^ String.sub v (i + 1) (String.length v - i - 1)
+          | OScan ->
+              let young m = match split '.' m with
+                | _ :: _ :: inf :: _ -> date_of_info (Mlutil.unhex inf) >= expiry_threshold | _ -> true in
+              Array.iteri (fun i l -> ab.(i) <- List.filter young l) ab; "ok" in
+        let ires = Array.of_list (split ',' (field outs "res")) and icks = Array.of_list (split '^' (field outs "cks")) in
+        let failure = ref None and known = ref false in
+        let fail r = if !failure = None then failure := Some r in
+        List.iteri (fun i (o, _) ->
+          if !failure = None then begin
+            let ir = if i < Array.length ires then ires.(i) else "MISSING" in
+            let ick = if i < Array.length icks then icks.(i) else "MISSING" in
+            (* after a crash the walk may also pass empty mailbox directories ("-"): they hold no mail *)
+            let ick = match String.index_opt ick '/' with
+              | Some p ->
+                  let stp = String.sub ick 0 p and vp = String.sub ick (p + 1) (String.length ick - p - 1) in
+                  let ne = List.filter (fun x -> x <> "-") (if vp = "none" then [] else split '|' vp) in
+                  stp ^ "/" ^ (if ne = [] then "none" else String.concat "|" ne)
+              | None -> ick in
+            let ir = if String.length ir >= 2 && String.sub ir 0 2 = "V=" then begin
+                let vp = String.sub ir 2 (String.length ir - 2) in
+                let ne = List.filter (fun x -> x <> "-") (if vp = "none" then [] else split '|' vp) in
+                "V=" ^ (if ne = [] then "none" else String.concat "|" ne) end else ir in
+            if ir = "crashed" then begin
+              (* not at all / completely / evicted prefix *)
+              let saved = Array.copy ab and saved_n = Array.copy nadd in
+              if ick = render () then ()
+              else begin
+                let mb = op_mb o in
+                let pl = ab.(mb) in
+                let nev = match o with OAdd _ -> int_of_nat (evict_count (!sctx).capn (nat_of_int (List.length pl))) | _ -> 0 in
+                let rec try_drop j = j <= nev && (ab.(mb) <- drop j pl; ick = render () || try_drop (j + 1)) in
+                if nev > 0 && try_drop 1 then known := true
+                else begin
+                  Array.blit saved 0 ab 0 n; Array.blit saved_n 0 nadd 0 n;
+                  ignore (apply o);
+                  if ick = render () then ()     (* applied completely: its commit step had been passed *)
+                  else begin Array.blit saved 0 ab 0 n; Array.blit saved_n 0 nadd 0 n; fail "killed-operation-left-a-state-that-is-neither-old-nor-new" end
+                end
+              end
+            end else begin
+              let r = apply o in
+              if r <> ir then fail "operation-result-differs-from-ordered-map"
+              else if ick <> render () then fail "state-differs-from-ordered-map"
+            end;
+            if has_sub ick "ERR" || has_sub ick "NOSRC" then fail "unreadable"
+          end) items;
+        let verdict =
+          match outs with
+          | ["POOL-DIFFERS"] -> "fail:hash-of-pool-names-changed"
+          | _ -> (match !failure with
+                  | Some r -> "fail:" ^ r
+                  | None -> if !known then "fail:evict-then-append" else "ok") in
+        Mlutil.print_model model verdict
     | "new", [capf; poolf] ->
         (* store construction died at its MkdirAll; a second file.New: an empty store that accepts mail
            (in the model the root mail directory always exists: New is Stat + MkdirAll, idempotent) *)
